@@ -266,6 +266,7 @@ Section Valid.
         | Some _ => false
         end
       | CProcessExt => existsb (fun p => jhas p m) (s_default_checked c) || jhas (u "extensions") m
+      | CSkipBaseCheck => true
       | COpaque _ => false
       end
     end.
